@@ -1,5 +1,6 @@
 import FFVerif.Props.C01
 import FFVerif.Props.C01Seg
+import FFVerif.Pins.pinControlMatrixFromScratch
 #print axioms FFVerif.C01.segIntegral_closed
 #print axioms FFVerif.C01.segIntegral_zero
 #print axioms FFVerif.C01.firstOrderEntry_exact
@@ -20,3 +21,4 @@ import FFVerif.Props.C01Seg
 #print axioms FFVerif.C01.segment_trace_integral
 #print axioms FFVerif.C01.cm_segment_form
 #print axioms FFVerif.C01.cm_segment_form_error
+#print axioms FFVerif.Pins.pinControlMatrixFromScratch
